@@ -156,6 +156,24 @@ void use_fixed_vector_moveonly()
     (void)b.at(0);
     (void)b.size();
 }
+// an element type that is constructible from anything (std::any, json values, variants with a converting constructor template):
+// braces around a container of such elements prefer the initializer_list constructor - `fixed_vector tmp{ v }` would be a
+// one-element container holding the whole source (R07.11 reads which constructor the assignment operators select for it)
+struct greedy
+{
+    greedy() = default;
+    template <typename U, typename = typename std::enable_if<!std::is_same<typename std::decay<U>::type, greedy>::value>::type>
+    greedy(U&&)
+    {
+    }
+};
+void use_fixed_vector_greedy(nitro::lang::fixed_vector<greedy>& dst, const nitro::lang::fixed_vector<greedy>& src)
+{
+    nitro::lang::fixed_vector<greedy> other(2);
+    dst = src;
+    dst = std::move(other);
+    dst = { greedy(), greedy() };
+}
 void use_fixed_vectors()
 {
     use_fixed_vector_copyable<int>(1);
